@@ -411,7 +411,7 @@ def backend(E):
 
 def harnesses(tier):
     q = tier == "quick"
-    T = 900 if q else 3000
+    T = 900 if q else 1200
     m = 2 if q else 3
     hs = [
         H("export", export, dict(m=m), FUNCS, covers=["exported", "roundtrip"],
